@@ -683,12 +683,13 @@ impl<H: DnsHandle> DnssecDnsHandle<H> {
                 if ds_message
                     .answers
                     .iter()
-                    .filter(|r| r.record_type() == RecordType::DS)
+                    .filter(|r| r.record_type() == RecordType::DS && r.name == zone)
                     .any(|r| r.proof.is_secure()) =>
             {
                 // This is a secure DS RRset.
                 let all_records = mem::take(&mut ds_message.answers)
                     .into_iter()
+                    .filter(|r| r.name == zone)
                     .filter_map(|r| {
                         r.map(|data| match data {
                             RData::DNSSEC(DNSSECRData::DS(ds)) => Some(ds),
@@ -723,11 +724,9 @@ impl<H: DnsHandle> DnssecDnsHandle<H> {
                 }
             }
             Ok(response) => {
-                if !response
-                    .answers
-                    .iter()
-                    .any(|r| r.record_type() == RecordType::DS)
-                {
+                // Only an empty answer section can stand for the absence of the DS RRset; any
+                // other answer does not answer the DS query and proves nothing.
+                if response.answers.is_empty() {
                     debug!(
                         %zone,
                         "marking zone as insecure based on secure NSEC/NSEC3 proof or insecure parent zone",
